@@ -54,6 +54,15 @@ QUERIES = {
     # outside the Coq query model: compared with a fresh object only
     'str': (lambda o, a: str(o), None, None),
     'kappaX': (lambda o, a: fnum(o.get_kappa_X(['E', 'D', 'S'], ['K', 'T'])), None, None),
+    # one union of residues, grouped in several ways (a memo keyed on the flattened groups would mix them up)
+    'kappaX_u': (lambda o, a: fnum(o.get_kappa_X(['E', 'D', 'K', 'R'])), None, None),
+    'kappaX_ek': (lambda o, a: fnum(o.get_kappa_X(['E', 'D'], ['K', 'R'])), None, None),
+    'kappaX_d': (lambda o, a: fnum(o.get_kappa_X(['D'], ['E', 'K', 'R'])), None, None),
+    'kappaX_de': (lambda o, a: fnum(o.get_kappa_X(['D', 'E'], ['K', 'R'])), None, None),
+    'reduced_u1': (lambda o, a: o.get_reduced_alphabet_sequence(userAlphabet={x: ('A' if x in 'AGSTP' else 'L') for x in AAS}), None, None),
+    'reduced_u2': (lambda o, a: o.get_reduced_alphabet_sequence(userAlphabet={x: ('E' if x in 'DEKR' else 'G') for x in AAS}), None, None),
+    'complexity3': (lambda o, a: _arr(o.get_linear_complexity('WF', 3, blobLen=min(6, len(o)))), None, None),
+    'PPII_h': (lambda o, a: fnum(o.get_PPII_propensity('hilser')), None, None),
     'Omega_seq': (lambda o, a: o.get_Omega_sequence(), None, None),
     'FCR_pH': (lambda o, a: fnum(o.get_FCR(pH=a)), None, None),
     'NCPR_pH': (lambda o, a: fnum(o.get_NCPR(pH=a)), None, None),
@@ -71,7 +80,8 @@ QUERIES = {
     'MW': (lambda o, a: fnum(o.get_molecular_weight()), None, None),
     'STY': (lambda o, a: [int(x) for x in o.get_all_phosphorylatable_sites()], None, None),
 }
-STATEFUL = ['kappa', 'deltaMax', 'deltaMaxT', 'Omega', 'kappa_after', 'distribution', 'composition_default', 'html']
+STATEFUL = ['kappa', 'deltaMax', 'deltaMaxT', 'Omega', 'kappa_after', 'distribution', 'composition_default', 'html',
+            'kappaX_u', 'kappaX_ek', 'kappaX_d', 'reduced_u1', 'reduced_u2', 'complexity', 'complexity3', 'PPII', 'PPII_h']
 
 
 def same(a, b):
